@@ -196,4 +196,19 @@ VARIANTS = [
     M("C35-merge-other-severity", "C35", "openpectus/aggregator/models.py", "            if latest is not None and entry.message == latest.message and entry.severity == latest.severity:", "            if latest is not None and entry.message == latest.message:", "R35b", "entries of different severity merged"),
     M("C26-bytes-field", "C26", "openpectus/protocol/models.py", "class PlotColorRegion(ProtocolModel):\n    process_value_name: str", "class PlotColorRegion(ProtocolModel):\n    process_value_name: str\n    raw: bytes = b''", "R26a", "bytes field in a protocol model"),
     M("C26-any-namespace", "C26", "openpectus/protocol/serialization.py", "        if module_name not in _message_namespace_names:\n            raise ValueError(f\"Message module name '{module_name}' is not a valid protocol message namespace.\")\n", "", "R26b", "namespace not validated"),
+    # ---------------------------------------------------------------- C13
+    M("C13-no-catch-all", "C13", ENG, "                except Exception as ex:\n                    logger.error(\"Unhandled interpretation error\", exc_info=True)\n                    frontend_logger.error(\"Method error\")\n                    self.set_error_state(ex)\n", "", "R13a", "catch-all handler around interpreter.tick removed"),
+    M("C13-handler-no-error-state", "C13", ENG, "                    if ie.user_message is not None:\n                        frontend_logger.error(ie.user_message)\n                    self.set_error_state(ie)", "                    if ie.user_message is not None:\n                        frontend_logger.error(ie.user_message)\n                        self.set_error_state(ie)", "R13a", "InterpretationError without user message does not pause"),
+    M("C13-cmd-tick-unprotected", "C13", ENG, "            try:\n                assert self._command_manager is not None\n                self._command_manager.tick(tick_time, self._tick_number)\n            except Exception as ex:\n                self.set_error_state(ex)\n", "            assert self._command_manager is not None\n            self._command_manager.tick(tick_time, self._tick_number)\n", "R13a", "command manager tick outside try"),
+    M("C13-error-state-conditional-pause", "C13", ENG, "        self._last_error = exception\n        self._runstate_paused = True\n", "        self._last_error = exception\n        if self._runstate_started:\n            self._runstate_paused = True\n", "R13b", "pause flag only set when started"),
+    M("C13-emitter-no-try", "C13", "openpectus/lang/exec/events.py", "            try:\n                listener.on_tick(tick_time, increment_time)\n            except Exception:\n                logger.error(f\"on_tick failed for listener '{listener}'\", exc_info=True)\n", "            listener.on_tick(tick_time, increment_time)\n", "R13b", "on_tick fan-out unprotected"),
+    M("C13-visit-narrow-handler", "C13", PI, "            except Exception as ex:\n                node.failed = True\n                self._last_error = ex, node", "            except NodeInterpretationError as ex:\n                node.failed = True\n                self._last_error = ex, node", "R13c", "only interpretation errors are recorded as failures"),
+    M("C13-visit-not-failed", "C13", PI, "            except Exception as ex:\n                node.failed = True\n                self._last_error = ex, node", "            except Exception as ex:\n                self._last_error = ex, node", "R13c", "failing node not marked failed"),
+    M("C13-cmd-swallow", "C13", CM, "            self.tracking.mark_failed(cmd_request)\n            logger.error(f\"Error running command '{cmd_request.name}'\", exc_info=True)\n            raise", "            self.tracking.mark_failed(cmd_request)\n            logger.error(f\"Error running command '{cmd_request.name}'\", exc_info=True)\n            self._executing_command_done(cmd_request)", "R13c", "failing command swallowed: run not paused"),
+    M("C13-new-unprotected-raise", "C13", ENG, "        self._tick_time = tick_time\n        self._tick_number += 1\n", "        self._tick_time = tick_time\n        self._tick_number += 1\n        if increment_time < 0:\n            raise ValueError(\"negative increment\")\n", "R13d", "new raise in the unprotected part of tick"),
+    M("C13-tracking-tick-raises", "C13", "openpectus/lang/exec/tracking.py", "    def tick(self, tick_time: float, tick_number: int):\n", "    def tick(self, tick_time: float, tick_number: int):\n        if tick_number < self.tick_number:\n            raise ValueError(\"tick number went backwards\")\n", "R13d", "new raise in Tracking.tick, which runs outside the try"),
+    M("C13-stop-refused-paused", "C13", ENG, "            if sys_state_value in [SystemStateEnum.Stopped, SystemStateEnum.Restarting]:\n                raise ValueError(f\"Stop command is not valid when system state is {sys_state_value}\")", "            if sys_state_value in [SystemStateEnum.Stopped, SystemStateEnum.Restarting, SystemStateEnum.Paused]:\n                raise ValueError(f\"Stop command is not valid when system state is {sys_state_value}\")", "R13e", "Stop refused while paused"),
+    M("C13-merge-keeps-error", "C13", ENG, "                    if self.has_error_state():\n                        self.clear_error_state()\n", "", "R13e", "merge does not clear the error state"),
+    E("C13-handler-order", "C13", ENG, "                except Exception as ex:\n                    logger.error(\"Unhandled interpretation error\", exc_info=True)\n                    frontend_logger.error(\"Method error\")\n                    self.set_error_state(ex)\n", "                except Exception as ex:\n                    self.set_error_state(ex)\n                    logger.error(\"Unhandled interpretation error\", exc_info=True)\n                    frontend_logger.error(\"Method error\")\n", "set_error_state first in handler"),
+    E("C13-bare-except", "C13", ENG, "            except Exception as ex:\n                self.set_error_state(ex)\n\n            # notify of tag changes", "            except BaseException as ex:\n                self.set_error_state(ex)  # type: ignore\n\n            # notify of tag changes", "wider catch-all"),
 ]
